@@ -87,3 +87,44 @@ def struct_fields(c, imp):
     if not adt or len(adt["variants"]) != 1:
         return None
     return [f["name"] for f in adt["variants"][0]["fields"]]
+
+
+def inner_predicates(c, body):
+    """which bottom/top predicates of *component* values a method consults (body + its closures): subset of {'IsBot', 'IsTop'}"""
+    out = set()
+    for bd in [body] + c.closures_of(body.def_path):
+        for bb, t in bd.calls():
+            f = t.get("f")
+            if f and f.get("trait") in ("lattices::IsBot", "lattices::IsTop"):
+                out.add(f["trait"].split("::")[-1])
+    return out
+
+
+def predsib_rule(ctx, c, rid):
+    """a Merge impl that special-cases bottom / top component values needs comparison impls (PartialOrd, PartialEq) of the same lattice that
+    consult the same predicate: otherwise merge collapses values that the comparisons still distinguish (idempotence / order agreement break)"""
+    merges = lattice_impls(c, {"lattices::Merge"})
+    cmp_preds = {}
+    for tr, meth in (("core::cmp::PartialOrd", "partial_cmp"), ("core::cmp::PartialEq", "eq")):
+        for imp in lattice_impls(c, {tr}):
+            b = c.impl_method(imp, meth)
+            if b is None or not imp.get("self_adt"):
+                continue
+            cmp_preds.setdefault((imp["self_adt"], tr), set()).update(inner_predicates(c, b))
+    for m in merges:
+        adt = m.get("self_adt")
+        b = c.impl_method(m, "merge")
+        if not adt or b is None:
+            continue
+        mp = inner_predicates(c, b)
+        key = impl_key(c, m)
+        ctx.inst(rid, key, nontrivial=bool(mp), sites=len(mp), sample={"merge_consults": sorted(mp),
+                 "partial_cmp_consults": sorted(cmp_preds.get((adt, "core::cmp::PartialOrd"), [])), "eq_consults": sorted(cmp_preds.get((adt, "core::cmp::PartialEq"), []))})
+        for tr in ("core::cmp::PartialOrd", "core::cmp::PartialEq"):
+            if (adt, tr) not in cmp_preds:
+                continue
+            missing = mp - cmp_preds[(adt, tr)]
+            for p in sorted(missing):
+                ctx.violation(rid, "%s|merge-only-predicate:%s:%s" % (key, p, tr.split("::")[-1]),
+                              "merge special-cases component values by %s but the lattice's %s never consults %s: values that merge collapses are still told apart by the comparison "
+                              "(merge(a, a) may differ from a; order disagrees with merge)" % (p, tr.split("::")[-1], p), "%s:%s" % (m["file"], m["line"]))
